@@ -32,13 +32,15 @@ import os
 import re
 import json
 import zlib
+import random
 import select
 import logging
 
 from harness.common import hx, VERIF
 from harness import sim
 from harness.c01 import (payload, digest, buf_str, send_outcome, recv_outcome, send_tok, recv_tok,
-                         st_str, _trace, gen_send)
+                         st_str, _trace, gen_send, one_response, structured_stream, struct_cut)
+from harness import httpgen
 
 import proxy.http.handler            # noqa: E402,F401
 import proxy.http.proxy.server       # noqa: E402,F401
@@ -581,9 +583,30 @@ def read_requests(data):
         data = rest
 
 
+def origin_tag(origin, method, target, body):
+    return b'%s:%d|%s|%s|%d:%d' % (origin[0].encode(), origin[1], method, target, len(body), zlib.crc32(body))
+
+
 def origin_response(origin, method, target, body):
-    pl = b'%s:%d|%s|%s|%d:%d' % (origin[0].encode(), origin[1], method, target, len(body), zlib.crc32(body))
+    pl = origin_tag(origin, method, target, body)
     return b'HTTP/1.1 200 OK\r\nContent-Length: %d\r\n\r\n' % len(pl) + pl
+
+
+def origin_pieces(origin, method, target, body, last):
+    """What the scripted origin answers to one request, as the segments it writes: optionally an interim
+    1xx response first, then the final response naming origin and request — Content-Length, chunked
+    (extensions, trailers) or, for the last request of a connection, delimited by close — with any
+    Connection header, cut at structural boundaries (harness/c01.py one_response / struct_cut).
+    A function of its arguments only, so that the expectation is computed independently of the run."""
+    rng = random.Random(zlib.crc32(repr((origin[0], origin[1], method, target, body, last)).encode()))
+    out = []
+    if rng.random() < 0.4:
+        out.append(rng.choice([b'HTTP/1.1 100 Continue\r\n\r\n', b'HTTP/1.1 103 Early Hints\r\nLink: </s>\r\n\r\n']))
+    framing = rng.choice(['cl', 'cl', 'chunked', 'chunked', 'close'] if last else ['cl', 'cl', 'chunked'])
+    data, bounds = one_response(rng, framing, 0, body=origin_tag(origin, method, target, body))
+    bounds = [x for x in bounds if 0 < x < len(data)]
+    out += struct_cut(rng, data, bounds)
+    return [x for x in out if x], framing == 'close'
 
 
 def split_responses(stream):
@@ -601,19 +624,23 @@ def split_responses(stream):
     return out
 
 
-def _verdict(prefix, got, want, torn):
-    """compare response streams; signature or None"""
-    g, wnt = split_responses(got), want
-    for i, x in enumerate(wnt):
-        if i >= len(g):
+def _verdict(prefix, got, want, torn, alt=None):
+    """transcript equality: the client stream must be the responses `want`, in order, every byte;
+    `alt(i)`: what a WRONG origin (the connected one) would have answered to request i"""
+    off = 0
+    for i, x in enumerate(want):
+        seg = got[off:off + len(x)]
+        if seg == x:
+            off += len(x)
+            continue
+        if x.startswith(got[off:]):
             return '%s-torn-down' % prefix if torn else '%s-missing-response' % prefix
-        if g[i] != x:
-            # which part differs
-            gb, xb = g[i].split(b'\r\n\r\n', 1)[-1], x.split(b'\r\n\r\n', 1)[-1]
-            if gb.split(b'|')[0] != xb.split(b'|')[0]:
+        if alt is not None:
+            y = alt(i)
+            if y is not None and y != x and got[off:off + len(y)] == y:
                 return '%s-wrong-origin' % prefix
-            return '%s-wrong-response' % prefix
-    if len(g) > len(wnt):
+        return '%s-wrong-response' % prefix
+    if len(got) > off:
         return '%s-extra-response' % prefix
     if torn:
         return '%s-torn-down' % prefix
@@ -626,11 +653,23 @@ def oracle_fwd(case):
     with sim.World(args=[], strict=False) as w:
         h, cs, cp = w.new_client()
         answered = {}          # upstream index -> number of requests answered
-        torn = False
+        st = {'torn': False, 'origin_closed': False}
+
+        def flush_client():
+            for _ in range(10000):
+                cp.pump()           # the client program keeps reading (many small writes fill a socketpair)
+                if not h.work.has_buffer():
+                    return
+                r = w.tick(h, [], [cs.fileno()])
+                if r is not False:
+                    if not st['origin_closed']:
+                        st['torn'] = True
+                    return
 
         def settle():
-            nonlocal torn
             for _ in range(200):
+                if st['torn'] or st['origin_closed']:
+                    return
                 moved = False
                 ev = w.events(h)
                 W = [fd for fd, m in ev.items() if m & 2]
@@ -638,41 +677,57 @@ def oracle_fwd(case):
                     r = w.tick(h, [], W)
                     moved = True
                     if r is not False:
-                        torn = True
+                        st['torn'] = True
                         return
                 for i, (us, peer, addr) in enumerate(w.upstreams):
                     peer.pump()
                     got, _ = read_requests(bytes(peer.inbox))
                     k = answered.get(i, 0)
-                    if len(got) > k and us.fileno() in ev:
+                    if len(got) > k and us.fileno() in w.events(h):
                         m, t, b_ = got[k]
+                        last = sum(answered.values()) == len(reqs) - 1
                         answered[i] = k + 1
-                        resp = origin_response(addr, m, t, b_)
-                        cut = len(resp) // 2
-                        for piece in (resp[:cut], resp[cut:]):
+                        pieces, closes = origin_pieces(addr, m, t, b_, last)
+                        for piece in pieces:
                             us.script_recv(('data', piece))
                             r = w.tick(h, [us.fileno()], [])
                             if r is not False:
-                                torn = True
+                                st['torn'] = True
                                 return
+                            flush_client()      # the client reads what it is given before more arrives
+                            if st['torn']:
+                                return
+                        if closes:
+                            st['origin_closed'] = True      # the origin ends the close-delimited body
+                            us.script_recv(('eof',))
+                            w.tick(h, [us.fileno()], [])
+                            flush_client()
+                            return
                         moved = True
                 if not moved:
                     return
-        for s in meta['segs']:
-            if torn or h.must_flush_before_shutdown:
-                torn = True
+        for s_ in meta['segs']:
+            if st['torn'] or st['origin_closed'] or h.must_flush_before_shutdown:
                 break
-            cs.script_recv(('data', bytes.fromhex(s)))
+            cs.script_recv(('data', bytes.fromhex(s_)))
             r = w.tick(h, [cs.fileno()], [])
             if r is not False:
-                torn = True
+                st['torn'] = True
                 break
             settle()
         settle()
         cp.pump()
-        want = [origin_response((r['o'][0], r['o'][1]), bytes.fromhex(r['m']), bytes.fromhex(r['t']),
-                                bytes.fromhex(r['b'])) for r in reqs]
-        return _verdict('fwd', bytes(cp.inbox), want, torn or bool(h.must_flush_before_shutdown))
+        n = len(reqs)
+
+        def pieces_of(i, origin):
+            r = reqs[i]
+            return b''.join(origin_pieces(origin, bytes.fromhex(r['m']), bytes.fromhex(r['t']),
+                                          bytes.fromhex(r['b']), i == n - 1)[0])
+        want = [pieces_of(i, (r['o'][0], r['o'][1])) for i, r in enumerate(reqs)]
+        first = w.connects[0] if w.connects else None
+        torn = st['torn'] or (bool(h.must_flush_before_shutdown) and not st['origin_closed'])
+        return _verdict('fwd', bytes(cp.inbox), want, torn,
+                        (lambda i: pieces_of(i, first)) if first is not None else None)
 
 
 def oracle_web(case):
@@ -732,9 +787,10 @@ def oracle_rev(case):
                     break
             if url is None:
                 return None     # unrouted requests are outside this oracle
-            m = re.match(rb'http://([^:/]+)(?::(\d+))?(/.*)?$', url)
-            origin = (m.group(1).decode(), int(m.group(2) or 80))
-            want.append(origin_response(origin, bytes.fromhex(r['m']), m.group(3) or b'/', bytes.fromhex(r['b'])))
+            m = re.match(rb'http://(\[[^\]]+\]|[^:/]+)(?::(\d+))?(/.*)?$', url)
+            origin = (m.group(1).decode().strip('[]'), int(m.group(2) or 80))
+            want.append(b''.join(origin_pieces(origin, bytes.fromhex(r['m']), m.group(3) or b'/', bytes.fromhex(r['b']),
+                                               False)[0]))
             c.send(bytes.fromhex(r['raw']))
             for _ in range(6):
                 w.pump([c] + [u[1] for u in w.upstreams], 2)
@@ -743,20 +799,17 @@ def oracle_rev(case):
                     k = answered.get(i, 0)
                     if len(got) > k:
                         answered[i] = k + 1
-                        p.send(origin_response((addr[0], addr[1]), got[k][0], got[k][1], got[k][2]))
+                        for piece in origin_pieces((addr[0], addr[1]), got[k][0], got[k][1], got[k][2], False)[0]:
+                            p.send(piece)
+                            w.pump([c], 2)
             c.drain()
         c.drain()
-        g = split_responses(c.rx)
-        for i, x in enumerate(want):
-            if i >= len(g):
-                if c.eof or not w.ex.works:
-                    return 'rev-connection-closed'
-                return 'rev-stalled'
-            if g[i] != x:
-                return 'rev-wrong-response'
-        if len(g) > len(want):
-            return 'rev-extra-response'
-        return None
+        v = _verdict('rev', bytes(c.rx), want, bool(c.eof) or not w.ex.works)
+        if v == 'rev-torn-down':
+            return 'rev-connection-closed'
+        if v == 'rev-missing-response':
+            return 'rev-stalled'
+        return v
     finally:
         w.close()
 
@@ -846,9 +899,17 @@ def gen_fwd_req(rng, origin, version=b'HTTP/1.1'):
     host, port = origin
     auth = host.encode() + (b'' if port == 80 and rng.random() < 0.7 else b':%d' % port)
     hs = [(b'Host', auth)]
-    pool = list(SAFE_HEADERS)
-    rng.shuffle(pool)
-    hs += pool[:rng.randrange(0, 4)]
+    if rng.random() < 0.5:
+        pool = list(SAFE_HEADERS)
+        rng.shuffle(pool)
+        hs += pool[:rng.randrange(0, 4)]
+    else:
+        # the shared header grammar (any casing, odd values); Upgrade would make it a protocol switch
+        hs += httpgen.rheaders(rng, rng.randrange(0, 6), exclude=(b'content-length', b'transfer-encoding', b'upgrade',
+                                                                  b'host', b'connection'))
+    if rng.random() < 0.45:
+        hs.insert(rng.randrange(1, len(hs) + 1),
+                  (httpgen.rcase(rng, b'Connection'), httpgen.rcase(rng, rng.choice([b'close', b'close', b'keep-alive']))))
     hs, pay, body = framed(rng, method, hs)
     raw = method + b' http://' + auth + path + b' ' + version + b'\r\n' + \
         b''.join(k + b':' + rng.choice([b' ', b'', b'  ']) + v + b'\r\n' for k, v in hs) + b'\r\n' + pay
@@ -905,9 +966,15 @@ def fwd_ticks(rng, segs, nresp, benign=True):
     """client segments in order, interleaved with upstream response pieces and flushes"""
     ups = []
     for _ in range(nresp):
-        r = rng.choice(RESP)
-        c_ = rng.randrange(1, len(r))
-        ups += [r[:c_], r[c_:]] if rng.random() < 0.5 else [r]
+        if rng.random() < 0.3:
+            r = rng.choice(RESP)
+            c_ = rng.randrange(1, len(r))
+            ups += [r[:c_], r[c_:]] if rng.random() < 0.5 else [r]
+        else:
+            # structure-aware streams: every framing, 1xx prefixes, cut at structural boundaries; whatever
+            # follows in `ups` is more upstream data arriving after the cut
+            data, bounds = structured_stream(rng)
+            ups += [x for x in struct_cut(rng, data, bounds) if x]
     cseg = list(segs)
     ticks = []
     big = ['s', 10 ** 6]
@@ -1059,6 +1126,7 @@ REV_ROUTES = [
     [[r'/a', b'http://ua.example:9001/x'.hex()], [r'/b', b'http://ub.example/y'.hex()]],
     [[r'/a$', b'http://ua.example:9001/x'.hex()], [r'/a/', b'http://ub.example:9002'.hex()], [r'/c', b'http://uc.example:9003/z?q=1'.hex()]],
     [[r'/', b'http://only.example:8000/r'.hex()]],
+    [[r'/a', b'http://[::1]:9004/v'.hex()], [r'/b', b'http://[2001:db8::2]/w'.hex()]],
 ]
 REV_PATHS = [b'/a', b'/a/1', b'/b', b'/c', b'/nomatch']
 UP_RESP = [b'HTTP/1.1 200 OK\r\nContent-Length: 2\r\n\r\nr1', b'HTTP/1.1 200 OK\r\nContent-Length: 3\r\n\r\nr-2']
